@@ -70,13 +70,20 @@ fn build_case(
     src: &mut Src,
 ) -> TokCase {
     let nl = if crlf { "\r\n" } else { "\n" };
+    // one text in four has mixed line ends: each field boundary draws LF or CRLF on its own
+    let mixed = src.chance(1, 4);
     let mut text = String::new();
     let lead = src.below(3);
     for _ in 0..lead {
         text.push_str(nl);
     }
     for t in toks {
-        text.push_str(&format!(":{}:{}{}", t.tag, t.content.replace('\n', nl), nl));
+        let e = if mixed {
+            if src.flip() { "\r\n" } else { "\n" }
+        } else {
+            nl
+        };
+        text.push_str(&format!(":{}:{}{}", t.tag, t.content.replace('\n', e), e));
     }
     for _ in 0..src.below(2) {
         text.push_str(nl);
@@ -491,7 +498,7 @@ pub fn oracle(c: &TokCase, obs: &mut Obs) -> Vec<Violation> {
 }
 
 pub fn run(ctx: &Ctx) {
-    ctx.add_rule("bulk texts (token lists of several generated messages concatenated and cut at 130..4097 fields around every power of two; up to 65 536 in the thorough tier) with histories of up to 600 requests focused on one tag; and per message type: well-delimited block-4 texts (valid and structurally mutated: unknown tags, duplicates, reorderings; LF/CRLF; leading/trailing blank lines) as extract_block returns them, plus a history of up to 40 consumption requests (peek / take by tag, find by base tag with and without option constraints, mark the k-th occurrence consumed out of order); oracle: reference tokenizer list == map flattened by position (tag or its numeric base, content up to surrounding white space, positions strictly increasing), a per-tag model of the tracker, and partition checks for split_into_sequences / parse_repetitive_sequence; non-trivial = a tag occurs twice, or a history mixing take and find; distinct by text/history");
+    ctx.add_rule("bulk texts (token lists of several generated messages concatenated and cut at 130..4097 fields around every power of two; up to 65 536 in the thorough tier) with histories of up to 600 requests focused on one tag; and per message type: well-delimited block-4 texts (valid and structurally mutated: unknown tags, duplicates, reorderings; LF, CRLF or a mix of both from field to field; leading/trailing blank lines) as extract_block returns them, plus a history of up to 40 consumption requests (peek / take by tag, find by base tag with and without option constraints, mark the k-th occurrence consumed out of order); oracle: reference tokenizer list == map flattened by position (tag or its numeric base, content up to surrounding white space, positions strictly increasing), a per-tag model of the tracker, and partition checks for split_into_sequences / parse_repetitive_sequence; non-trivial = a tag occurs twice, or a history mixing take and find; distinct by text/history");
     ctx.assume("the option letter may be removed only for field numbers outside the table normalize_field_tag documents (11 13 21 23 25 26 28 32 33 34 37 50-60 62 71 77 90)");
     ctx.assume("domain: content lines never start with ':' or '-' and nothing precedes the first field (the tokeniser's behaviour there is documented nowhere)");
     ctx.assume("find-by-base: the letterless tag is served before lettered ones (the function documents it); among lettered tags the earliest unconsumed eligible occurrence in input order is expected");
@@ -510,7 +517,7 @@ pub fn run(ctx: &Ctx) {
     if !ctx.quick() {
         sizes.extend_from_slice(BULK_SIZES_THOROUGH);
     }
-    let per_size = ctx.n(20, 60);
+    let per_size = ctx.n(20, 20);
     let bulk_types = ["101", "104", "940", "942", "103", "202", "920", "935"];
     let to_json_bulk = |c: &TokCase| serde_json::to_value(c).unwrap();
     ctx.run_generated(
